@@ -71,9 +71,6 @@ theorem header_read_iff (d : List Nat) (ac : Nat) (hac : ac ≤ 65535) :
 
 /-! ## `TupleVariationHeaderIter` -/
 
-/-- number of `Ok` headers in a trace -/
-def okHeaders (evs : List (Out (Option Hdr))) : Nat := ((items evs).filter (·.isSome)).length
-
 /-- **`TupleVariationHeaderIter` yields exactly `n_headers` items and never panics**: for every data,
 every count `n ≤ 4095` (`tupleVariationCount & 0x0FFF`) and axis count, the iterator makes exactly `n`
 trips (`current` counts up to `n_headers`; the `?` behind `data.split_off(next_len)` never fires, because
@@ -225,10 +222,6 @@ theorem computeScalar_no_panic_partial (p : TVD) (t : TV) (d' : List Nat) (hac :
       (Checked.tupleScalar pk inter coords).isSome) :
     ∃ r, t.computeScalar p coords = .ok r :=
   computeScalar_facts p t d' hac hr hb hs coords hk
-
-/-- the `for i in 0..axis_count` loop of `compute_scalar_f32` is structurally bounded by the axis count -/
-theorem f32Loop_total (inter : Option (List Int × List Int)) (coords pk : List Int) (ac : Nat) :
-    ∃ b, f32Loop inter coords pk (List.range ac) = b := ⟨_, rfl⟩
 
 /-- **`TupleVariation::deltas()` terminates without panicking for private and shared point numbers**:
 for every tuple with a successfully read header (gvar: `is_point`, cvar: scalars) the set-up
@@ -724,33 +717,7 @@ example : tvhRead [0, 3, 0xC0, 0, 0x40, 0, 0x20, 0, 0x40] 1 = none := by decide 
 example : (tvhTrace [0, 1, 0x80, 0, 0x40, 0, 0, 2, 0x80, 0, 0xC0, 0, 9] 3 1).map (fun evs => (items evs).map (·.isSome)) =
     some [true, true, false] := by decide +kernel
 
-/-- a cvar table with one tuple (embedded peak, private points "all", two byte deltas) -/
-def exCvar : List Nat := [0, 1, 0, 0, 0, 1, 0, 14, 0, 4, 0xA0, 0, 0x40, 0, 0, 1, 5, 6]
-
-def exCvarWalk : Option (List (List Int × List (Nat × Int × Int))) :=
-  match cvarVariationData exCvar 1 with
-  | .ok p => (tvTrace p).map (fun evs => (items evs).map (fun t =>
-      ((t.peak p).getD [], ((t.deltasTrace p false).map items).getD [])))
-  | _ => none
-
 example : exCvarWalk = some [([16384], [(0, 5, 0), (1, 6, 0)])] := by decide +kernel
-
-/-- a one-glyph gvar (long offsets, one axis, one shared tuple): the glyph's tuple refers to shared
-tuple 0 and carries deltas for "all points" -/
-def exGvar : List Nat :=
-  [0, 1, 0, 0, 0, 1, 0, 1, 0, 0, 0, 28, 0, 1, 0, 1, 0, 0, 0, 30,
-   0, 0, 0, 0, 0, 0, 0, 12,
-   0x40, 0,
-   0, 1, 0, 8, 0, 4, 0, 0, 0, 1, 1, 3]
-
-def exGvarWalk : Option (List (List Int × List (Nat × Int × Int))) :=
-  match gvarRead exGvar with
-  | none => none
-  | some g =>
-    match g.glyphVariationData 0 with
-    | .ok (some p) => (tvTrace p).map (fun evs => (items evs).map (fun t =>
-        ((t.peak p).getD [], ((t.deltasTrace p true).map items).getD [])))
-    | _ => none
 
 example : exGvarWalk = some [([16384], [(0, 1, 3)])] := by decide +kernel
 
@@ -796,6 +763,14 @@ example : CompsBounded (fun g => if g = 0 then GR.composite [(false, 7), (true, 
   split at h
   · injection h with h; rw [← h]; simp
   · cases h
+
+/-- the kernel hypotheses are statements C20 proves for all coordinates (`computeDelta_no_trap`,
+`avarApply_no_trap`); here their trivial instances -/
+example : DeltaKernelTotal [] := by
+  intro cols _ _
+  simp [Checked.computeDelta]
+
+example : (Checked.avarApply [(-16384, -16384), (0, 0), (16384, 16384)] 32768).isSome := by decide +kernel
 
 /-- the byte hypothesis is satisfiable -/
 example : Bytes exGvar := by unfold Bytes; decide
